@@ -168,23 +168,25 @@ type Task struct {
 	resume   chan resumeCmd
 	done     chan struct{}
 
-	Calls      []CallRec
-	Panic      string
-	PanicStack string
-	PanicFunc  string
-	Abandoned  bool
-	TInvoke    time.Time
-	TReturn    time.Time
-	SeqInvoke  int
-	SeqReturn  int
-	Writer     *RecWriter
-	Reply      *Reply
-	FaultFired []string // failure-type faults injected into this task (not stalls)
-	Overlapped bool     // ran in an overlap window (race mode)
-	Recovery   bool
-	Conformant bool // generated without any deviation, tamper or fault
-	InFaultEra bool // sent before Heal
-	AdvDuring  bool // clock advanced while this task was in flight
+	Calls                    []CallRec
+	Panic                    string
+	PanicStack               string
+	PanicFunc                string
+	Abandoned                bool
+	TInvoke                  time.Time
+	TReturn                  time.Time
+	SeqInvoke                int
+	SeqReturn                int
+	Writer                   *RecWriter
+	Reply                    *Reply
+	FaultFired               []string // failure-type faults injected into this task (not stalls)
+	Overlapped               bool     // ran in an overlap window (race mode)
+	Recovery                 bool
+	Conformant               bool // generated without any deviation, tamper or fault
+	InFaultEra               bool // sent before Heal
+	AdvDuring                bool // clock advanced while this task was in flight
+	RespKeyVer0, RespKeyVer1 int  // response signing key version current at invoke / at return
+	MetaKeyVer0, MetaKeyVer1 int
 }
 
 type taskKey struct{}
@@ -981,6 +983,7 @@ func (w *World) send(m *MsgSpec) *Task {
 	}
 	req = req.WithContext(context.WithValue(req.Context(), taskKey{}, t))
 	t.TInvoke = time.Now()
+	t.RespKeyVer0, t.MetaKeyVer0 = w.respKeyVer, w.metaKeyVer
 	t.SeqInvoke = w.hist.add("invoke", t.ID, fmt.Sprintf("%s sp=%d replica=%d %s", m.Kind, m.SP, ri, sent.Summary))
 	h := w.replicas[ri].Prov.HttpHandler()
 	go func() {
@@ -992,6 +995,7 @@ func (w *World) send(m *MsgSpec) *Task {
 			}
 			t.TReturn = time.Now()
 			w.mu.Lock()
+			t.RespKeyVer1, t.MetaKeyVer1 = w.respKeyVer, w.metaKeyVer
 			t.state = tsDone
 			w.mu.Unlock()
 			t.SeqReturn = w.hist.add("return", t.ID, "")
